@@ -1028,3 +1028,45 @@ Proof.
   destruct ex_records_ok as (C1 & L1 & C2 & L2 & _).
   split; [repeat constructor; assumption|]. repeat split; vm_compute; reflexivity.
 Qed.
+
+(* ------------------------------------------------------------------ fixed-length files (RECFM F / FB): records padded to the LRECL *)
+
+(* rows_of needs only that the counters hold on each buffer handed to it *)
+Lemma rows_of_ok_held {A} (dcount : list A -> nat) t : flat_odo t = true -> forall es (ps : list (list A)),
+  Forall2 (fun e p => counters_hold dcount e t p) es ps ->
+  exists rows, rows_of dcount (build t) ps = (rows, None)
+    /\ map (@row_buf A) rows = ps /\ map (@row_nav A) rows = map (fun e => flat_nav e t) es.
+Proof.
+  intros Hf es ps HF. induction HF as [|e p es ps Hc HF IH].
+  - exists []. repeat split; reflexivity.
+  - destruct IH as (rows & Hrun & Hb & Hn). exists (mkrow p (flat_nav e t) :: rows).
+    cbn [rows_of]. rewrite (nav_flat dcount t e p Hf Hc), Hrun. cbn [map row_buf row_nav]. rewrite Hb, Hn.
+    repeat split; reflexivity.
+Qed.
+
+(* ps = the records as stored: record r followed by its padding *)
+Definition padded {A} (r p : list A) : Prop := exists more, p = r ++ more.
+
+Lemma stream_F (dcount : list N -> nat) (kind : N) (lrecl : nat) t es (rs ps : list (list N)) :
+  flat_odo t = true -> Forall2 (rec_ok dcount t) es rs -> Forall2 padded rs ps -> legal_F lrecl ps = true ->
+  exists rows,
+    rows_F dcount kind (Some lrecl) (build t) (write_F ps) = Ok (rows, Done)
+    /\ map (@row_buf N) rows = ps
+    /\ Forall2 (fun rw r => nav_of dcount r (build t) = Ok (row_nav rw)) rows rs
+    /\ Forall2 (fun rw e => lend (n_loc (row_nav rw)) = extent e t) rows es.
+Proof.
+  intros Hf HF HP HL.
+  assert (Hheld : Forall2 (fun e p => counters_hold dcount e t p) es ps).
+  { clear HL. revert ps HP. induction HF as [|e r es rs [Hlen Hc] HF IH]; intros ps HP.
+    - inversion HP. constructor.
+    - inversion HP as [|r0 p rs0 ps0 [more Hp] HP']. subst. constructor.
+      + apply counters_frame; [exact Hf|lia|exact Hc].
+      + apply IH. exact HP'. }
+  destruct (rows_of_ok_held dcount t Hf es ps Hheld) as (rows & Hrun & Hb & Hn).
+  destruct (rows_facts dcount t rows es rs Hf Hn HF) as [F1 F2].
+  exists rows. split; [|split; [exact Hb|split; assumption]].
+  assert (Hl : 1 <= lrecl).
+  { unfold legal_F in HL. apply andb_prop in HL as [H1 _]. apply Nat.leb_le in H1. exact H1. }
+  unfold rows_F, set_schema. destruct lrecl as [|n]; [lia|].
+  rewrite (F_record_iter_ok kind (S n) ps HL). unfold rows_from. rewrite Hrun. reflexivity.
+Qed.
